@@ -319,6 +319,16 @@ def g5_no_cross_bloc_state(ctx):
                 continue  # only the outer per-bloc loop
             n += 1
             carried = _carried_mutable_state(f, lp)
+            # values re-bound inside the loop but read before being bound in the same iteration are
+            # carried over from the previous bloc (e.g. a per-bloc length hoisted out as a "loop invariant")
+            from vk import da as _da
+            fake = ast.parse("def _it():\n    pass\n").body[0]
+            fake.args.args = [ast.arg(arg=a) for a in astx.assigned_names(lp.target)]
+            fake.body = lp.body
+            assigned = {x.id for x in ast.walk(ast.Module(body=lp.body, type_ignores=[])) if isinstance(x, ast.Name) and isinstance(x.ctx, ast.Store)}
+            for fd in _da.DA(fake).run():
+                if fd.name in assigned and not any(nm == fd.name for _, nm in carried):
+                    carried.append((fd.node, fd.name))
             if not carried:
                 ctx.ok(f, lp, f"{f.short}: nothing mutable is carried from one bloc's iteration into the next", f"for {astx.u(lp.target)} in {astx.u(lp.iter)}")
             for node, name in carried:
@@ -326,6 +336,8 @@ def g5_no_cross_bloc_state(ctx):
                              f"`{astx.u(node)[:70]}`: state of earlier blocs (e.g. their zero-support candidates or pool) leaks into later blocs' ballots")
     if n < 7:
         ctx.vanished(f"per-bloc loops: only {n} found")
+    from vk import wiring
+    wiring.check_swapped(ctx, ("src/votekit/ballot_generator.py", "src/votekit/pref_interval.py"), "generators")
     # zero-support candidates survive interval combination (shared with C15.R2)
     from rules import c15
     sub = type(ctx)(prog, ctx.prop, ctx.tier)
@@ -365,6 +377,8 @@ FAULTS = [
 ]
 PI = "src/votekit/pref_interval.py"
 FAULTS += [
+    ("per-bloc lengths hoisted", [(BGP, "            # if there aren't enough non-zero supported candidates,\n            # include 0 support as ties\n            number_to_sample = self.ballot_length\n            number_tied = None\n", ""), (BGP, "        for bloc in self.blocs:\n            # number of voters in this bloc\n            num_ballots = ballots_per_block[bloc]\n            ballot_pool = [Ballot()] * num_ballots\n            non_zero_cands", "        number_to_sample = self.ballot_length\n        number_tied = None\n        for bloc in self.blocs:\n            # number of voters in this bloc\n            num_ballots = ballots_per_block[bloc]\n            ballot_pool = [Ballot()] * num_ballots\n            non_zero_cands")], "C14.G5"),
+    ("mcmc helper arguments swapped", [(BGP, "        self, num_ballots, pref_interval, seed_ballot, zero_cands={}, verbose=False\n", "        self, num_ballots, pref_interval, seed_ballot, verbose=False, zero_cands={}\n"), (BGP, "                seed_ballot,\n                zero_cands=zero_cands,\n                verbose=verbose,\n            )", "                seed_ballot,\n                zero_cands,\n                verbose,\n            )")], "C14.G5"),
     ("zero cands accumulated across blocs", [(BGP, "        pref_profile_by_bloc = {}\n\n        for i, bloc in enumerate(self.blocs):\n            # number of voters in this bloc\n            num_ballots = ballots_per_block[bloc]\n            ballot_pool = [Ballot()] * num_ballots\n            pref_intervals = self.pref_intervals_by_bloc[bloc]\n            zero_cands = set(\n                it.chain(*[pi.zero_cands for pi in pref_intervals.values()])\n            )\n\n            slate_to_non_zero_candidates",
                                               "        pref_profile_by_bloc = {}\n        zero_cands: set = set()\n\n        for i, bloc in enumerate(self.blocs):\n            # number of voters in this bloc\n            num_ballots = ballots_per_block[bloc]\n            ballot_pool = [Ballot()] * num_ballots\n            pref_intervals = self.pref_intervals_by_bloc[bloc]\n            zero_cands.update(\n                it.chain(*[pi.zero_cands for pi in pref_intervals.values()])\n            )\n\n            slate_to_non_zero_candidates")], "C14.G5"),
     ("pool shared by blocs", [(BGP, "        for i, bloc in enumerate(self.blocs):\n            ballot_pool = []\n            num_bloc_ballots", "        ballot_pool = []\n        for i, bloc in enumerate(self.blocs):\n            num_bloc_ballots")], "C14.G5"),
